@@ -53,6 +53,10 @@ mut("c15-foreach-skip-last", [(L, LFE_OLD, """	wg.Add(ego.Ego().Count())
 	}
 	wg.Wait()
 	return ego.Ego()""")], ["C15"], note="last element of long lists skipped")
+mut("c15-list-string-memo-unsynchronised", [(L, "type list struct {\n\tval []field\n\tptr List\n}", "type list struct {\n\tval []field\n\tptr List\n\tstr string\n\tstrLen int\n}"),
+    (L, "func (ego *list) String() string {\n\treturn ego.Ego().serialize()\n}",
+     "func (ego *list) String() string {\n\tif ego.strLen == len(ego.val)+1 {\n\t\treturn ego.str\n\t}\n\tego.str = ego.Ego().serialize()\n\tego.strLen = len(ego.val) + 1\n\treturn ego.str\n}")],
+    ["C15"], note="String() of a list memoised in unsynchronised fields on first use: only clients that meet the list cold race (cold readers / cold containers)")
 LMA_OLD = """		mutex.Lock()
 		result.Replace(i, function(i, x))
 		mutex.Unlock()
